@@ -4,7 +4,7 @@
 // It might be nice to put these functions in lib.rs.
 // But they are also used in this crate, so we put them here.
 
-use ariadne::Config;
+use ariadne::{Config, IndexType};
 use ariadne::{ColorGenerator, Label, Report, ReportKind, Source};
 use std::ops::Range;
 use std::path::{Path, PathBuf};
@@ -88,7 +88,12 @@ pub fn report_error(message: &str, span: &Range<usize>, file_path: &str, source:
     Report::build(ReportKind::Error, (file_path, span.clone()))
         .with_code(3)
         .with_message(message)
-        .with_config(Config::default().with_compact(true))
+        // The spans are byte offsets (rowan text ranges), not character counts.
+        .with_config(
+            Config::default()
+                .with_compact(true)
+                .with_index_type(IndexType::Byte),
+        )
         .with_label(
             Label::new((file_path, span.clone()))
                 .with_message("Near this point")
